@@ -89,6 +89,7 @@ type c12Probe struct {
 	accepted bool
 	cliCert  string
 	ran      bool
+	resumed  bool // the server resumed a session instead of a full handshake
 }
 
 func (p c12Probe) canon() string {
@@ -122,7 +123,6 @@ func c12HandshakeAcc(k int, acc []int, client func(conn net.Conn) error) c12Prob
 	scfg := &tls.Config{
 		Certificates:           []tls.Certificate{pki.serverBy[k]},
 		ClientAuth:             tls.RequestClientCert,
-		SessionTicketsDisabled: true,
 		MinVersion:             tls.VersionTLS12,
 		GetConfigForClient: func(chi *tls.ClientHelloInfo) (*tls.Config, error) {
 			p.sni = chi.ServerName
@@ -136,6 +136,11 @@ func c12HandshakeAcc(k int, acc []int, client func(conn net.Conn) error) c12Prob
 			scfg.ClientCAs.AddCert(pki.clientCAs[j].cert)
 		}
 	}
+	// ONE server across all connections of the lane: it issues session tickets under a stable
+	// key, so a client stack that keeps a session cache would RESUME on its next connection
+	// (crypto/tls does not check the chain against RootCAs again on resumption). Every new
+	// connection must be judged by the settings in force now.
+	scfg.SetSessionTicketKeys([][32]byte{c12TicketKey})
 	done := make(chan struct{})
 	go func() {
 		defer close(done)
@@ -146,6 +151,10 @@ func c12HandshakeAcc(k int, acc []int, client func(conn net.Conn) error) c12Prob
 			if len(st.PeerCertificates) > 0 {
 				p.cliCert = st.PeerCertificates[0].Subject.CommonName
 			}
+			if st.DidResume {
+				p.resumed = true
+			}
+			srv.Write([]byte{'k'}) // lets the client read (and with it process the session tickets)
 			// keep reading so that a late client alert / close is consumed
 			buf := make([]byte, 64)
 			srv.Read(buf)
@@ -161,6 +170,16 @@ func c12HandshakeAcc(k int, acc []int, client func(conn net.Conn) error) c12Prob
 }
 
 var errC12ProbeDone = errors.New("c12 probe done")
+
+var c12TicketKey = [32]byte{'c', '1', '2', '-', 't', 'i', 'c', 'k', 'e', 't'}
+
+// c12AfterHandshake reads the byte the probe server sends after the handshake: under TLS 1.3 the
+// session tickets travel in front of it.
+func c12AfterHandshake(tc *tls.Conn) {
+	tc.SetReadDeadline(time.Now().Add(2 * time.Second))
+	var b [1]byte
+	tc.Read(b[:])
+}
 
 // c12Hist mirrors the session histogram so that a lane can check its must-reach buckets.
 var c12Hist = map[*verifh.Session]map[string]int{}
@@ -306,12 +325,23 @@ func c12MeasureAcc(c *Client, stack string, onlyH1 bool, k int, acc []int) (p c1
 		case "h1":
 			p = c12HandshakeAcc(k, acc, func(conn net.Conn) error {
 				pc := &persistConn{t: t, conn: conn, cacheKey: connectMethodKey{scheme: "https", addr: c12UnitHost + ":443", onlyH1: onlyH1}}
-				return pc.addTLS(ctx, c12UnitHost, nil, false)
+				if err := pc.addTLS(ctx, c12UnitHost, nil, false); err != nil {
+					return err
+				}
+				if tc, ok := pc.conn.(*tls.Conn); ok {
+					c12AfterHandshake(tc)
+				}
+				return nil
 			})
 		case "h2":
 			t.t2.DialTLS = func(network, addr string, cfg *tls.Config) (net.Conn, error) {
 				p = c12HandshakeAcc(k, acc, func(conn net.Conn) error {
-					return tls.Client(conn, cfg).HandshakeContext(ctx)
+					tc := tls.Client(conn, cfg)
+					if err := tc.HandshakeContext(ctx); err != nil {
+						return err
+					}
+					c12AfterHandshake(tc)
+					return nil
 				})
 				return nil, errC12ProbeDone
 			}
@@ -323,7 +353,12 @@ func c12MeasureAcc(c *Client, stack string, onlyH1 bool, k int, acc []int) (p c1
 			}
 			t.t3.Dial = func(ctx context.Context, addr string, cfg *tls.Config, qc *quic.Config) (quic.EarlyConnection, error) {
 				p = c12HandshakeAcc(k, acc, func(conn net.Conn) error {
-					return tls.Client(conn, cfg).HandshakeContext(ctx)
+					tc := tls.Client(conn, cfg)
+					if err := tc.HandshakeContext(ctx); err != nil {
+						return err
+					}
+					c12AfterHandshake(tc)
+					return nil
 				})
 				return nil, errC12ProbeDone
 			}
